@@ -311,6 +311,78 @@ fn keyed_histories(max_len: usize, out: &mut Vec<History>) {
     }
 }
 
+/// the library's higher-order functions re-entered from their own callbacks, on lists of every shape up to length 4
+/// over a two-value domain (used by C10: activations of library functions must not interfere either)
+pub fn reentrancy_check(st: &mut Stats) {
+    let mut hs: Vec<History> = Vec::new();
+    for kind in 0..KINDS {
+        let dom = elem_domain(kind);
+        let ty = dom[0].ty();
+        let ops: Vec<Op> = list_ops(kind).into_iter().filter(|o| o.name.contains('(')).collect();
+        for len in 0..=4usize {
+            for mut code in 0..2usize.pow(len as u32) {
+                let mut init: Vec<Val> = Vec::new();
+                for _ in 0..len {
+                    init.push(dom[code % 2].clone());
+                    code /= 2;
+                }
+                for a in &ops {
+                    for b in &ops {
+                        let mut model = init.clone();
+                        let mut expected = Vec::new();
+                        let mut body = vec![format!("l: [{}] = [{}]", ty, init.iter().map(|v| v.src()).collect::<Vec<_>>().join(", "))];
+                        for op in [a, b] {
+                            body.push(op.src.clone());
+                            (op.apply)(&mut model, &mut expected);
+                        }
+                        body.push("print(l)".into());
+                        expected.push(show_list(&model));
+                        hs.push(History { family: format!("reentrant list<{}>", ty), body, expected, ops: vec![a.name, b.name] });
+                    }
+                }
+            }
+        }
+    }
+    let idx: Vec<usize> = (0..hs.len()).collect();
+    let batches: Vec<&[usize]> = idx.chunks(40).collect();
+    let accs = crate::pool::par_items(&batches, 1, |_| Stats::new(), |acc, _, b| {
+        let members: Vec<&History> = b.iter().map(|i| &hs[*i]).collect();
+        let mut observed = run_batch(&members);
+        if observed.is_err() || observed.as_ref().unwrap().iter().any(|o| o.is_none() || o.as_ref().unwrap().iter().any(|l| l.starts_with("!!"))) {
+            let mut per = Vec::new();
+            for m in &members {
+                match run_batch(&[*m]) {
+                    Ok(mut v) => per.push(v.pop().unwrap()),
+                    Err(e) => per.push(Some(vec![format!("!!{}", e)])),
+                }
+            }
+            observed = Ok(per);
+        }
+        for (m, got) in members.iter().zip(observed.unwrap().iter()) {
+            acc.evaluations += 1;
+            acc.traces_validated += 1;
+            acc.nontrivial(fnv(format!("{}|{}", m.family, m.body.join("\n")).as_bytes()));
+            let got = got.clone().unwrap_or_else(|| vec!["!!no output".into()]);
+            if got == m.expected {
+                acc.outcome("library-reentrancy:matches-model");
+                continue;
+            }
+            acc.outcome("library-reentrancy:differs-from-model");
+            let text = program(&[*m]);
+            let mut files = serde_json::Map::new();
+            files.insert(MAIN.to_string(), json!(text));
+            acc.fail(Failure {
+                sig: "library-function-not-reentrant".into(),
+                preds: vec![],
+                detail: format!("{} ops {:?}\n{}\nmodel:    {:?}\nobserved: {:?}", m.family, m.ops, m.body.join("\n"), m.expected, got),
+                case: json!({"engine": "c18", "files": files, "expected": m.expected}),
+                size: m.body.join("").len(),
+            });
+        }
+    });
+    st.merge(Stats::merge_all(accs));
+}
+
 fn num_text(f: f64) -> String {
     crate::refsylt::float_text(f)
 }
